@@ -40,7 +40,7 @@ func (Prop) Describe() core.Description {
 		Notes: map[string]string{
 			"sim_time_note": "C20 has no clock in it; sim_time_ns is 0 by construction",
 		},
-		RequiredProbesQuick: []string{"panic_recovered_call", "panic_recovered_hook", "error_with_data", "wrong_data_only", "inapplicable_faulty", "goexit_env", "invalid_regexp", "lacking_interface", "lacking_interface_all_inapplicable", "typehelper_used", "nil_receiver", "nil_value_unmarshal", "nil_interface_value", "long_list", "before_hook_adjusts_case", "asymmetric_typehelper_wildcard", "cloning_typehelper", "emptied_not_nil", "listed_nil_value", "second_concrete_type", "listed_empty_data", "json_equivalent_wrong_data", "lenient_equal_method", "panic_value_with_uncallable_error_method", "nil_interface_value_first_case", "listed_nil_input", "pointer_receiver_value_type", "before_hook_installs_or_clears_predicate", "big_payload", "interface_field_holding_a_map", "memoising_stringer", "other_dynamic_type_behind_interface", "single_encoding_type", "after_hook_adjusts_expectation", "pointer_to_emptied_map"},
+		RequiredProbesQuick: []string{"panic_recovered_call", "panic_recovered_hook", "error_with_data", "wrong_data_only", "inapplicable_faulty", "goexit_env", "invalid_regexp", "lacking_interface", "lacking_interface_all_inapplicable", "typehelper_used", "nil_receiver", "nil_value_unmarshal", "nil_interface_value", "long_list", "before_hook_adjusts_case", "asymmetric_typehelper_wildcard", "cloning_typehelper", "emptied_not_nil", "listed_nil_value", "second_concrete_type", "listed_empty_data", "json_equivalent_wrong_data", "lenient_equal_method", "panic_value_with_uncallable_error_method", "nil_interface_value_first_case", "listed_nil_input", "pointer_receiver_value_type", "before_hook_installs_or_clears_predicate", "big_payload", "interface_field_holding_a_map", "memoising_stringer", "other_dynamic_type_behind_interface", "single_encoding_type", "after_hook_adjusts_expectation", "pointer_to_emptied_map", "returned_error_with_uncallable_error_method", "before_hook_installs_after_hook", "predicate_fails_through_failnow", "case_index_ge_64"},
 	}
 }
 
@@ -88,8 +88,15 @@ func enumH2() int { return 6 * 2 * 3 * len(badErrPreds) * nPos }
 func enumH3() int { return 6 * 2 * 2 * 2 }
 func enumH4() int { return 2 * nBeh * len(nilDataPreds) * nPos * 2 }
 func enumWave7() int {
-	return enumH1() + enumH2() + enumH3() + enumH4() + enumH5() + enumH6() + enumH7() + enumH8() + enumH9()
+	return enumH1() + enumH2() + enumH3() + enumH4() + enumH5() + enumH6() + enumH7() + enumH8() + enumH9() + enumH10() + enumH11()
 }
+
+// Before hooks that install the After hook of their case: 6 helpers x {V, *P} x behaviour x
+// After {pass, error, panic} x position
+func enumH11() int { return 6 * 2 * nBeh * 3 * nPos }
+
+// a returned error whose Error method panics: 6 helpers x {V, *P} x every predicate kind x position
+func enumH10() int { return 6 * 2 * numPreds * nPos }
 
 // After hooks that put the expectation right (6 helpers x {V, *P} x behaviour x position), and
 // the pointer to a map (6 helpers x 10 behaviours incl. the emptied ones x {no predicate,
@@ -168,6 +175,33 @@ func wave7Spec(r int) (ls listSpec, ok bool) {
 		if long {
 			ls.cases = []caseSpec{c, plain, plain}
 		}
+	case r >= enumH1()+enumH2()+enumH3()+enumH4()+enumH5()+enumH6()+enumH7()+enumH8()+enumH9()+enumH10():
+		r -= enumH1() + enumH2() + enumH3() + enumH4() + enumH5() + enumH6() + enumH7() + enumH8() + enumH9() + enumH10()
+		c := caseSpec{payload: "x", beforeSetsAfter: true}
+		pos := r % nPos
+		r /= nPos
+		c.after = hPass + r%3
+		r /= 3
+		c.beh = r % nBeh
+		r /= nBeh
+		ls.shape = r % 2
+		r /= 2
+		ls.enc, ls.dir = r/2, r%2
+		if c.beh == bPanicAfterSet && ls.dir == dirMarshal {
+			return ls, false
+		}
+		ls.cases = place(c, pos)
+	case r >= enumH1()+enumH2()+enumH3()+enumH4()+enumH5()+enumH6()+enumH7()+enumH8()+enumH9():
+		r -= enumH1() + enumH2() + enumH3() + enumH4() + enumH5() + enumH6() + enumH7() + enumH8() + enumH9()
+		c := caseSpec{payload: "x", beh: bReturnBadError}
+		pos := r % nPos
+		r /= nPos
+		c.pred = r % numPreds
+		r /= numPreds
+		ls.shape = r % 2
+		r /= 2
+		ls.enc, ls.dir = r/2, r%2
+		ls.cases = place(c, pos)
 	case r >= enumH1()+enumH2()+enumH3()+enumH4()+enumH5()+enumH6()+enumH7()+enumH8()+enumH9a():
 		r -= enumH1() + enumH2() + enumH3() + enumH4() + enumH5() + enumH6() + enumH7() + enumH8() + enumH9a()
 		c := caseSpec{payload: "x"}
@@ -599,7 +633,7 @@ func classOf(ls listSpec, l *listRun) (nontrivial bool, classes []uint64) {
 		if l.failures[i] > 0 {
 			verdict = 1
 		}
-		h.Add(uint64(ls.enc*2+ls.dir)<<40 | uint64(ls.shape)<<32 | uint64(pos)<<28 | uint64(c.constraint)<<24 | uint64(c.beh)<<16 | uint64(c.before)<<12 | uint64(c.after)<<8 | uint64(c.pred)<<4 | uint64(verdict)<<1 | uint64(ls.typeHelper)<<50 | b2u(c.adjust)<<46 | uint64(c.wrongKind)<<52 | b2u(c.wildcard)<<47 | b2u(c.nilExpect)<<48 | b2u(c.other)<<49 | b2u(c.emptyData)<<55 | b2u(c.nilValue)<<44 | b2u(c.nilIface)<<45 | b2u(c.nilData)<<56 | b2u(c.adjustPred)<<57 | b2u(c.adjustAfter)<<59 | b2u(len(c.payload) > 1000)<<58)
+		h.Add(uint64(ls.enc*2+ls.dir)<<40 | uint64(ls.shape)<<32 | uint64(pos)<<28 | uint64(c.constraint)<<24 | uint64(c.beh)<<16 | uint64(c.before)<<12 | uint64(c.after)<<8 | uint64(c.pred)<<4 | uint64(verdict)<<1 | uint64(ls.typeHelper)<<50 | b2u(c.adjust)<<46 | uint64(c.wrongKind)<<52 | b2u(c.wildcard)<<47 | b2u(c.nilExpect)<<48 | b2u(c.other)<<49 | b2u(c.emptyData)<<55 | b2u(c.nilValue)<<44 | b2u(c.nilIface)<<45 | b2u(c.nilData)<<56 | b2u(c.adjustPred)<<57 | b2u(c.adjustAfter)<<59 | b2u(c.beforeSetsAfter)<<60 | b2u(len(c.payload) > 1000)<<58)
 		classes = append(classes, uint64(h))
 	}
 	if !ls.hasInterface() && len(ls.cases) > 0 {
@@ -745,11 +779,24 @@ func probes(res *core.Result, ls listSpec, l *listRun) {
 		if c.adjustAfter {
 			res.Probes.Inc("after_hook_adjusts_expectation")
 		}
+		if c.beforeSetsAfter {
+			res.Probes.Inc("before_hook_installs_after_hook")
+		}
+		if c.pred == pCustomFailNow {
+			res.Probes.Inc("predicate_fails_through_failnow")
+		}
+		if i >= 64 {
+			res.Probes.Inc("case_index_ge_64")
+		}
 		if ls.shape == shPMap && (c.beh == bErrorEmptied || c.beh == bEmptied) {
 			res.Probes.Inc("pointer_to_emptied_map")
 		}
 		if len(c.payload) > 1000 {
 			res.Probes.Inc("big_payload")
+		}
+		if c.beh == bReturnBadError {
+			res.Probes.Inc("returned_error_with_uncallable_error_method")
+			res.Faults.Inc("call_error_uncallable")
 		}
 		if c.beh == bPanicBadError {
 			res.Probes.Inc("panic_value_with_uncallable_error_method")
@@ -776,7 +823,7 @@ func finish(res *core.Result, ls listSpec, o core.RunOpts, extraTrace []string) 
 	h := core.NewHash()
 	h.Add(uint64(ls.enc*2+ls.dir)<<8 | uint64(ls.shape)<<4 | b2u(ls.goexit)<<1 | uint64(ls.typeHelper)<<2)
 	for _, c := range ls.cases {
-		h.Add(uint64(c.constraint)<<24 | uint64(c.beh)<<16 | uint64(c.before)<<12 | uint64(c.after)<<8 | uint64(c.pred) | b2u(c.nilValue)<<28 | b2u(c.nilIface)<<29 | b2u(c.adjust)<<30 | uint64(c.wrongKind)<<32 | b2u(c.wildcard)<<31 | b2u(c.nilExpect)<<36 | b2u(c.other)<<37 | b2u(c.emptyData)<<38 | b2u(c.nilData)<<39 | b2u(c.adjustPred)<<40 | b2u(c.adjustAfter)<<42 | b2u(len(c.payload) > 1000)<<41)
+		h.Add(uint64(c.constraint)<<24 | uint64(c.beh)<<16 | uint64(c.before)<<12 | uint64(c.after)<<8 | uint64(c.pred) | b2u(c.nilValue)<<28 | b2u(c.nilIface)<<29 | b2u(c.adjust)<<30 | uint64(c.wrongKind)<<32 | b2u(c.wildcard)<<31 | b2u(c.nilExpect)<<36 | b2u(c.other)<<37 | b2u(c.emptyData)<<38 | b2u(c.nilData)<<39 | b2u(c.adjustPred)<<40 | b2u(c.adjustAfter)<<42 | b2u(c.beforeSetsAfter)<<43 | b2u(len(c.payload) > 1000)<<41)
 	}
 	for _, e := range l.events {
 		h.AddString(e.what)
@@ -863,6 +910,7 @@ func genCase(t *core.Tape) caseSpec {
 	c.nilData = t.Bool(1, 8)
 	c.adjustPred = t.Bool(1, 2)
 	c.adjustAfter = t.Bool(1, 10)
+	c.beforeSetsAfter = t.Bool(1, 10)
 	c.payload = [...]string{"p", "", "payload with spaces", "{\"k\":1}", "\x00\xff", "~", "line\n", "100% %s", "caf\xe9 \xff\xff"}[t.Choose(9)]
 	if t.Bool(1, 48) {
 		c.payload = bigPayload // well beyond any buffer or chunk size a comparison might use
@@ -884,7 +932,7 @@ func (Prop) Run(t *core.Tape, o core.RunOpts) *core.Result {
 	}
 	n := t.Choose(13)
 	if t.Bool(1, 40) {
-		n = 13 + t.Choose(52) // once in a while a long list
+		n = 13 + t.Choose(68) // once in a while a long list, now and then beyond 64 cases (the width of a machine word)
 		res.Probes.Inc("long_list")
 	}
 	for i := 0; i < n; i++ {
